@@ -11,17 +11,30 @@ Module ProdT.
   Import Prod. Import ProdP.
 
   (* a request in the bridge's hands is not empty *)
-  Record Inv4 (s : st) : Prop := { q_br : brB (br s) <= br_set s }.
+  Definition brNo (p : brpc) : nat := match p with BrNone => 1 | _ => 0 end.
+  Definition bL3 (p : bpc) : nat := match p with BShutDrain | BShutStop | BDone => 1 | _ => 0 end.
+  Lemma q_spec p a r : bL3 p <= bLate p a /\ brNo r + brB r + brDn r <= 1 /\ bL3 p + bNo p + bSel p + bRs p <= 1.
+  Proof. destruct p, a, r; cbn; lia. Qed.
+
+  Record Inv4 (s : st) : Prop := {
+    q_br : brB (br s) <= br_set s;                                   (* a request in the bridge's hands is not empty *)
+    q_tq : dDn (dp s) <= b2n (tpq_closed s) + tNo (tp s);             (* the dispatcher closed its handlers before returning *)
+    q_pq : tDn (tp s) <= b2n (ppq_closed s) + pNo (pp s);
+    q_bn : brNo (br s) = bNo (bp s);                                  (* worker and bridge are created together *)
+    q_out : bLate (bp s) (b_after s) <= b2n (out_closed s);
+    q_resp : brDn (br s) <= b2n (resp_closed s);
+    q_tp : tNo (tp s) <= pNo (pp s)                                   (* the partition producer is made by the topic producer *)
+  }.
   Lemma inv4_init c : Inv4 (init c). Proof. constructor; cbn; lia. Qed.
 
   Ltac qgo :=
-    match goal with Q : Inv4 ?s, H : step _ ?s _ = Some _ |- _ =>
+    match goal with Q : Inv4 ?s, I : Inv ?s, H : step _ ?s _ = Some _ |- _ =>
       scbn H; unfold resolve in H; unacc;
       step_cases H; pair_cases; bool_hyps; pair_cases; bool_hyps;
-      match goal with Q : Inv4 ?sx |- _ =>
-        destruct Q as [Q1]; pose proof (br_spec (br sx)); unacc; rew_eqs sx;
-        cbn [brB brDn] in *;
-        (constructor; red_goal; rew_goal sx; cbn [brB brDn]; try lia)
+      match goal with Q : Inv4 ?sx, I : Inv ?sx |- _ =>
+        destruct Q as [Q1 Q2 Q3 Q4 Q5 Q6 Q7]; destr_inv I; pose_specs sx; pose proof (q_spec (bp sx) (b_after sx) (br sx)); unacc; rew_eqs sx;
+        cbn [brB brDn brNo bL3 dDn tDn tNo pNo bNo bLate bSel bRs aL aW aOK b2n] in *;
+        (constructor; red_goal; rew_goal sx; cbn [brB brDn brNo bL3 dDn tDn tNo pNo bNo bLate bSel bRs aL aW aOK b2n]; try lia)
       end
     end.
 
@@ -30,7 +43,7 @@ Module ProdT.
   (* the close cascade: nothing in flight any more *)
   Lemma stuck_final c s : Inv s -> Inv4 s -> sLate (sp s) = 1 -> stuck (step c) s -> final s.
   Proof.
-    intros I Q P Hs. destr_inv I. destruct Q as [Q1].
+    intros I Q P Hs. destr_inv I. destruct Q as [Q1 Q2 Q3 Q4 Q5 Q6 Q7]. pose proof (q_spec (bp s) (b_after s) (br s)).
     pose_specs s. unfold tokens in *.
     assert (Z : inflight s = 0) by auto.
     rewrite Z in *.
@@ -64,9 +77,46 @@ Module ProdT.
     assert (Tp : tp s = TNone \/ tp s = TDone).
     { destruct (tp s) eqn:E; auto; exfalso; cbn in *; try lia.
       - en Hs ATSeeClosed. rewrite E, Tq in X.
-        (* its input was closed by the dispatcher's exit *)
-        admit_tpq.
+        assert (Tc : tpq_closed s = true) by (destruct (tpq_closed s); cbn in *; auto; lia).
+        rewrite Tc in X. discriminate.
       - en Hs ATCloseH. rewrite E in X. discriminate. }
-    admit_rest.
-  Admitted.
+    (* partition producer *)
+    assert (Pp : pp s = PNone \/ pp s = PDone).
+    { destruct (pp s) eqn:E; auto; exfalso; cbn in *; try lia.
+      - en Hs APSeeClosed. rewrite E, Pq in X.
+        assert (Pc : ppq_closed s = true) by (destruct Tp as [T|T]; rewrite T in *; destruct (ppq_closed s); cbn in *; auto; lia).
+        rewrite Pc in X. discriminate.
+      - en Hs APExit. rewrite E in X. destruct (pp_ref s); [destruct (b_refs s) as [|[|?]]|]; discriminate. }
+    assert (Pr : pp_ref s = false) by (destruct Pp as [T|T]; rewrite T in *; destruct (pp_ref s); cbn in *; auto; lia).
+    rewrite Pr in *; cbn in *.
+    (* bridge *)
+    assert (Bg : br s = BrNone \/ br s = BrDone \/ (br s = BrRecv /\ out_closed s = false)).
+    { destruct (br s) eqn:E; auto.
+      - destruct (out_closed s) eqn:Eo; [|auto].
+        exfalso. en Hs ABrSeeClosed. rewrite E, Eo in X. discriminate.
+      - exfalso. cbn in *. lia.
+      - exfalso. cbn in *. lia.
+      - exfalso. en Hs ABrCloseResp. rewrite E in X. discriminate. }
+    (* broker producer *)
+    assert (Bp : bp s = BNone \/ bp s = BDone).
+    { destruct (bp s) eqn:E; auto; exfalso; cbn in *; try lia.
+      - en Hs ABSeeClosed. rewrite E in X.
+        assert (Bc : b_in_closed s = true) by (destruct (b_in_closed s); cbn in *; auto; lia).
+        rewrite Bc in X. discriminate.
+      - en Hs ABRespDone. rewrite E, Br in X. discriminate.
+      - en Hs ABShutFlushed. rewrite E, Bb in X. discriminate.
+      - en Hs ABCloseOut. rewrite E in X. discriminate.
+      - (* BShutDrain: the bridge has closed responses *)
+        assert (Oc : out_closed s = true) by (destruct (out_closed s); cbn in *; auto; lia).
+        destruct Bg as [G|[G|[G G2]]]; rewrite G in *; cbn in *; try lia; try congruence.
+        en Hs ABDrained. rewrite E in X.
+        assert (Rc : resp_closed s = true) by (destruct (resp_closed s); cbn in *; auto; lia).
+        rewrite Rc in X. discriminate.
+      - en Hs ABCloseStop. rewrite E in X. discriminate. }
+    assert (Bg' : br s = BrNone \/ br s = BrDone).
+    { destruct Bg as [G|[G|[G G2]]]; auto. exfalso.
+      destruct Bp as [B|B]; rewrite B, G in *; cbn in *; try lia.
+      rewrite G2 in *; cbn in *; lia. }
+    unfold final. rewrite S1, Dp, Rh. repeat split; auto.
+  Qed.
 End ProdT.
